@@ -16,6 +16,8 @@ import (
 // extra sim state used by the event generator
 type simExtra struct {
 	usedZero      bool
+	usedHuge      bool
+	wantHuge      bool // decided once per conversation (1 in 300)
 	usedEmpty     bool
 	lastDesc      string
 	lastEditClass string
@@ -55,6 +57,8 @@ var badStmts = []string{
 
 var tokBad = []string{
 	"SELECT 'unterminated FROM t;",
+	"-- refreshed [12:30]\nSELECT a[1:2], 'unterminated FROM t;", // bracketed numbers in the snippet the error message quotes
+	"SELECT arr[7:9] FROM t;\nSELECT 'unterminated",
 }
 
 var goodList, badList []string
@@ -120,7 +124,7 @@ func (s *sim) genDoc() (text string, bad [][2]int, tokErr bool, structured bool)
 		}
 	}
 	if s.src.Intn(12, "c18.tokbad") == 11 {
-		sb.WriteString(tokBad[0] + "\n")
+		sb.WriteString(tokBad[s.src.Intn(len(tokBad), "c18.tokbadkind")] + "\n")
 		return sb.String(), nil, true, true
 	}
 	return sb.String(), bad, false, true
@@ -288,7 +292,44 @@ func (s *sim) nextEvent() {
 	}
 }
 
+// hugeDocument: a document larger than the documented 5 MiB analysis limit
+// (inside the 10 MiB frame limit) is still opened and mirrored; the next edit
+// shrinks it back to two lines, after which everything must work as usual.
+func (s *sim) hugeDocument() {
+	uri := s.uri()
+	text := strings.Repeat("SELECT 1;\n", (5*1024*1024)/10+2)
+	safe := s.safeNow()
+	s.notify("textDocument/didOpen", map[string]any{"textDocument": map[string]any{"uri": uri, "languageId": "sql", "version": 1, "text": text}})
+	s.r.Faults["document-over-5MiB"]++
+	s.everOpen = true
+	s.lastEditClass = "open-over-5MiB"
+	if !safe {
+		s.model[uri] = &mdoc{known: false, maybe: true}
+		return
+	}
+	s.model[uri] = &mdoc{text: text, known: true, version: 1}
+	s.advance(50 * time.Millisecond)
+	lines := lineCount(text)
+	res, ok, _ := applyLSP(text, 1, 0, lines+3, 0, "SELECT FROM")
+	m := s.model[uri]
+	m.version = 2
+	if ok {
+		m.text = res
+	} else {
+		m.known = false
+	}
+	s.notify("textDocument/didChange", map[string]any{"textDocument": map[string]any{"uri": uri, "version": 2},
+		"contentChanges": []any{map[string]any{"range": map[string]any{"start": map[string]any{"line": 1, "character": 0}, "end": map[string]any{"line": lines + 3, "character": 0}}, "text": "SELECT FROM"}}})
+	s.lastEditClass = "shrink-after-over-5MiB"
+	s.lastNote.uri, s.lastNote.kind, s.lastNote.safe, s.lastNote.version = uri, "change", s.safeNow(), 2
+}
+
 func (s *sim) oneMessage(inBurst bool) {
+	if s.wantHuge && !s.usedHuge && !inBurst && s.sent >= 3 {
+		s.usedHuge = true
+		s.hugeDocument()
+		return
+	}
 	k := s.src.Intn(100, "c18.kind")
 	switch {
 	case k < 14:
